@@ -22,7 +22,7 @@ ASSUMPTIONS = [
     "the areas themselves are judged by C05; here only the weighting, the dims/name/grid plumbing and the rejection rule",
     "the face dimension is the last dimension, named n_face; node/edge data are recognised by their dimension name",
     "values are small dyadic rationals; float64 results compared at 1e-12 relative, float32 at 1e-5",
-    "the absolute (spherical-excess) value of an integral is asserted for the default rule and the two highest orders only, with C05's tolerances; other orders are compared with compute_face_areas of the same rule and order",
+    "the absolute (spherical-excess) value of an integral is asserted with C05's tolerances for the default rule and the two highest orders; at other orders only over faces up to 10 degrees across, within 10%; everything else is compared with compute_face_areas of the same rule and order",
 ]
 BUDGET = {
     "quick": dict(shards=4, examples=200),
@@ -185,20 +185,27 @@ def run_case(case, ctx):
     xyz = meshgen.mesh_xyz(mesh)
     TOLC = {"<=10deg": 1e-6, "<=30deg": 1e-4, "<=65deg": 1e-2}
     ex, tl = 0.0, 0.0
+    judged_rule = (rule, order) in (("triangular", 4), ("triangular", 12), ("gaussian", 10))
     mask = np.zeros(g.n_face)
     for fi, f in enumerate(mesh["faces"]):
         vs = [tuple(xyz[i]) for i in f]
-        t = TOLC.get(facegen.size_class(vs)) if S.is_strictly_convex(vs, 1e-9) else None
+        t = TOLC.get(facegen.size_class(vs)) if S.is_strictly_convex_rel(vs, 1e-3) else None
         if t is None:
             continue  # no accuracy is claimed for faces > 65 degrees across or non-convex ones (C05)
+        if not judged_rule:
+            # other orders: only faces up to 10 degrees across, within 10% (over such a face the integrand of the area
+            # integral varies by 1 - cos(10 deg) = 1.5%, so even a one-point rule is far inside; a face that is lost
+            # altogether is not)
+            if t != 1e-6:
+                continue
+            t = 0.1
         mask[fi] = 1.0
         a_f = S.poly_area(vs)
         ex += a_f
         tl += t * a_f
-    # the statement bounds the accuracy of the default rule and of the limit of rising order only (C05): no absolute
-    # accuracy is asserted at other orders (a 65-degree triangle is off by 21% at triangular order 1)
-    judged = (rule, order) in (("triangular", 4), ("triangular", 12), ("gaussian", 10))
-    if mask.any() and judged:
+    # the statement bounds the accuracy of the default rule and of the limit of rising order only (C05): at other orders
+    # larger faces are not judged (a 65-degree triangle is off by 21% at triangular order 1)
+    if mask.any():
         ctx.ev("total_is_spherical_area")
         part = float(ux.UxDataArray(mask, dims=["n_face"], uxgrid=g, name="m").integrate(rule, order).values)
         if abs(part - ex) > tl + 1e-12:
